@@ -14,9 +14,10 @@ EXTENDS FlatGeom, TLC
 WTOK == 99          \* token written through FlatCoords()
 TTOK == 98          \* token written by the TransformInPlace callback into the first ordinate
 
-\* spare: ghost flag "the coordinate slice has spare capacity" (not observable through the API, but it
-\* decides whether a later append writes in place, so histories must distinguish it)
-Obj(k, l, v, srid) == [k |-> k, l |-> l, v |-> v, srid |-> srid, spare |-> FALSE]
+\* spare: ghost value "the slices have capacity behind their length" - 0 none, 1 the coordinate slice (Reserve), 2 every
+\* slice the constructor was handed (newflat with room). Not observable through the API, but it decides whether a later
+\* append writes in place, so histories must distinguish it (and the two kinds of room from each other).
+Obj(k, l, v, srid) == [k |-> k, l |-> l, v |-> v, srid |-> srid, spare |-> 0]
 EmptyVal(k) == <<>>
 St0(k, l0) == LET l == IF k = "GC" THEN "No" ELSE l0 IN
              [o |-> <<Obj(k, l, EmptyVal(k), 0), Obj(k, l, EmptyVal(k), 0)>>, err |-> "none"]
@@ -61,7 +62,7 @@ Apply(st, a) ==
     [] a.op = "pushbad" -> [st EXCEPT !.err = "layout"]                     \* receiver unchanged
     [] a.op = "reverse" -> [st EXCEPT !.o[a.to].v = ReverseVal(st.o[a.to].k, @), !.err = "none"]
     [] a.op = "swap"    -> [st EXCEPT !.o = <<st.o[2], st.o[1]>>, !.err = "none"]
-    [] a.op = "clone"   -> [st EXCEPT !.o[2] = [st.o[1] EXCEPT !.spare = FALSE], !.err = "none"]       \* other := orig.Clone()
+    [] a.op = "clone"   -> [st EXCEPT !.o[2] = [st.o[1] EXCEPT !.spare = 0], !.err = "none"]       \* other := orig.Clone()
     [] a.op = "write"   ->
          LET o == st.o[a.to]  r == RepOf(o) IN
          IF a.pos >= Len(r.flat) THEN [st EXCEPT !.err = "none"]
@@ -77,10 +78,10 @@ Apply(st, a) ==
                                                        IF (i - 1) % s = 0 THEN TTOK ELSE r.flat[i]]], s),
                          !.err = "none"]
     [] a.op = "srid"    -> [st EXCEPT !.o[a.to].srid = a.srid, !.err = "none"]
-    [] a.op = "reserve" -> [st EXCEPT !.o[a.to].spare = TRUE, !.err = "none"]     \* capacity only
-    [] a.op = "setcoords" -> [st EXCEPT !.o[a.to].v = a.v, !.o[a.to].spare = FALSE, !.err = "none"]
+    [] a.op = "reserve" -> [st EXCEPT !.o[a.to].spare = IF @ = 2 THEN 2 ELSE 1, !.err = "none"]     \* capacity only
+    [] a.op = "setcoords" -> [st EXCEPT !.o[a.to].v = a.v, !.o[a.to].spare = 0, !.err = "none"]
     [] a.op = "newflat" ->                                   \* obj := New<Kind>Flat(layout, Deflate(v)...): a NEW object (SRID 0)
-         [st EXCEPT !.o[a.to] = Obj(st.o[a.to].k, st.o[a.to].l, a.v, 0), !.err = "none"]
+         [st EXCEPT !.o[a.to] = [Obj(st.o[a.to].k, st.o[a.to].l, a.v, 0) EXCEPT !.spare = IF a.room THEN 2 ELSE 0], !.err = "none"]
     [] a.op = "setbad" -> [st EXCEPT !.err = "stride"]       \* refused; the receiver's content afterwards is not prescribed (last step only)
     [] a.op = "setlayout" ->                                                   \* GC only
          LET o == st.o[a.to] IN
